@@ -9,7 +9,7 @@
 (* Each step must be Z80!StepInt from the current state (when sem = 1) and  *)
 (* both members must agree bit for bit.  r/ov are carried in TLC variables. *)
 (***************************************************************************)
-EXTENDS Z80, Json, IOUtils
+EXTENDS Z80Bus, Json, IOUtils
 
 Traces == JsonDeserialize(IOEnv.CASES)
 
@@ -38,12 +38,15 @@ Sem(t, o, e, oo) ==
   ELSE "ok"
 
 \* tsem = 1: T is predicted by the specification (plain simulators).
-\* tsem = 0: contended pair - the instruction's duration is not specified here (C19 does that); the
-\* observation must be explained by SOME duration, with or without the interrupt's 13/19 T.
+\* tsem = 0: contended pair on the 48K layout - the instruction ends at its uncontended duration plus the
+\* ULA delay of Z80Bus!ContendedDelay (both readings of the OTIR/OTDR internal-cycle address are accepted);
+\* interrupt acceptance then adds its 13/19 T as for the plain pair.
 Clause(t, o, rr, oo) ==
   LET S(tA) == [r |-> rr, ov |-> oo, inv |-> t.inv, frame |-> t.frame, ia |-> t.ia, tA |-> tA]
       E(tA) == StepInt(S(tA), t.ints = 1)
-      cands == { tA \in {o.r[rT], o.r[rT] - 13, o.r[rT] - 19} : tA >= rr[rT] }
+      B(alt) == [r |-> rr, ov |-> oo, inv |-> t.inv, frame |-> t.frame, ia |-> t.ia, tA |-> -1, m128 |-> 0, odd |-> 0, alt |-> alt]
+      base == Step(S(-1)).r[rT]
+      cands == { base + ContendedDelay(B(0)), base + ContendedDelay(B(1)) }
   IN
   IF o.exc # "" THEN "exception"
   ELSE IF ~Range(o) THEN "range"
@@ -57,7 +60,7 @@ Clause(t, o, rr, oo) ==
   ELSE IF t.sem = 0 THEN "ok"
   ELSE IF t.tsem = 1 THEN Sem(t, o, E(-1), oo)
   ELSE IF \E tA \in cands : Sem(t, o, E(tA), oo) = "ok" THEN "ok"
-  ELSE Sem(t, o, E(o.r[rT]), oo)
+  ELSE Sem(t, o, E(base + ContendedDelay(B(0))), oo)
 
 TraceInit ==
   /\ tid \in 1..Len(Traces)
